@@ -16,6 +16,8 @@ inductive PendKind where
   | run (sid : Nat) (slot : Nat)   -- handler still running after its POST was abandoned by the client
   | del (sid : Nat) (fresh : Bool)   -- `fresh` (ghost): the session was not yet closing when the DELETE was accepted
   | cls (sid : Nat)
+  -- POST number `n` whose body is still on its way; `user`: whom the handler will see
+  | upl (sid : Nat) (n : Nat) (user : UserTok)
 deriving DecidableEq, Repr
 
 structure Pend where
@@ -45,7 +47,12 @@ def closeErrOf (s : State) (i : Nat) : Bool :=
 
 def showMap (s : State) : List MapEnt :=
   (s.tbl.filter (fun e => e.inMap)).map fun e =>
-    { name := sname e.id, owner := ownerOf e.owner, refs := e.refs, timer := e.timer != .nil, closing := e.closing }
+    { name := sname e.id, owner := ownerOf e.owner, refs := e.refs, timer := e.timer != .nil, closing := e.closing,
+      busy := e.busy + e.initBusy }
+
+/-- Sessions that are not (or no longer) in `h.sessions` and whose idle timer is armed. -/
+def showStale (s : State) : List Name :=
+  (s.tbl.filter (fun e => !e.inMap && e.timer.isArmed)).map fun e => sname e.id
 
 def showSrv (s : State) : List Name :=
   if s.cfg.stateless then List.replicate s.eph .e
@@ -60,7 +67,8 @@ def completions (s : State) (pend : List Pend) : List (Tag × Nat) × List Pend 
     | .cls i => if isLive s i then (done, keep ++ [p])
                 else (done ++ [(p.tag, if closeErrOf s i then 2 else 1)], keep)
     | .slow _ _ => (done, keep ++ [p])
-    | .run _ _ => (done, keep ++ [p])) ([], [])
+    | .run _ _ => (done, keep ++ [p])
+    | .upl _ _ _ => (done, keep ++ [p])) ([], [])
 
 /-- The replay state: the model state and the harness-side bookkeeping of asynchronous requests. -/
 structure RState where
@@ -279,6 +287,36 @@ def modelOp (d : RState) (op : Op) : Option ROut :=
         else some { base with st := st2, nasync := d.nasync + 1, status := (if closeErrOf st2 i then .err else .ok) }
       else some { base with status := .noop }
     | none => some { base with status := .noop }
+  | .postb ref user =>
+    -- the request HEADERS arrive: `lookupSession`, `startPOST`; the transport blocks reading the body
+    let base := { base with nasync := d.nasync + 1 }
+    if st.cfg.stateless then none
+    else
+      match step st (.postHead (ref.sid st.next) user.user) with
+      | some (st1, .reject c) => some { base with st := st1, status := .code c }
+      | some (st1, .forward _ _) =>
+        some { base with st := st1, status := .pending,
+                         pend := d.pend ++ [⟨.u (d.nasync + 1), .upl ((ref.sid st.next).getD 0) (d.nasync + 1) user⟩] }
+      | _ => none
+  | .body n fin =>
+    if st.cfg.stateless then none else
+    match d.pend.find? (fun p => p.tag == Tag.u n) with
+    | none => some { base with status := .noop }
+    | some p =>
+      if !fin then some { base with status := .ok }     -- a piece that is not the last one: the transport keeps reading
+      else
+        let rest := d.pend.filter (fun q => q.tag != p.tag)
+        match p.kind with
+        | .upl i _ user =>
+          -- the body is complete: the `ping` is handed over (unless `Close` has begun), answered, the POST ends
+          match step st (.postBody i .call) with
+          | some (st1, .forward _ dlv) =>
+            some { base with st := doL (runHandler st1 i .call dlv) (.postEnd (some i) false), status := .ok,
+                             done := [(p.tag, 200)], log := (if dlv then [⟨sname i, .tok user, .ping⟩] else []), pend := rest }
+          | some (st1, .storeRefused c) =>
+            some { base with st := doL st1 (.postEnd (some i) false), status := .ok, done := [(p.tag, c)], pend := rest }
+          | _ => some { base with status := .noop }   -- (never: the body of a POST in progress can always arrive)
+        | _ => some { base with status := .noop }
 
 /-- One record: the operation, the settling at quiescence, the completions, the snapshot. -/
 def replayOp (d : RState) (op : Op) : Option (RState × Obs) :=
@@ -289,7 +327,7 @@ def replayOp (d : RState) (op : Op) : Option (RState × Obs) :=
     let cp := completions st m.pend
     some ({ st := st, nslow := m.nslow, nasync := m.nasync, released := m.released, pend := cp.2 },
           { status := m.status, hdr := m.hdr, hang := m.hang, done := m.done ++ cp.1,
-            map := showMap st, srv := showSrv st, log := m.log })
+            map := showMap st, srv := showSrv st, log := m.log, stale := showStale st })
 
 /-- The model's answer to the harness's final sweep (everything released, every request cancelled,
 every session closed by the server): nothing is stuck, nothing is left — except the dead sessions that
